@@ -745,6 +745,8 @@ def run(ck):
           key='FMT-reader-accumulate|read_gro')
     truncation_obligations(ck, ALL_FIELDS)
     spec_parse_obligation(ck)
+    atom_record_values(ck)
+    conect_records_all_used(ck)
     # the default helper: only None is replaced
     gnn = pdb.func('get_not_none')
     ck.analysed(pdb, gnn)
@@ -826,3 +828,89 @@ def run(ck):
     shared.pdb_atom_record_rules(ck, 'PROV-record')
     ck.assume('PDB/GRO layouts are compared between the writer format strings and the reader column tables of the same tree; '
               'numeric precision of the round trip is not decided')
+
+
+def atom_record_values(ck):
+    """PDBParser._atom: the text of every column becomes the value it spells -- a residue number written `  -4` is read as -4, `   0` as 0, an empty numeric column as
+    the type's zero.  The statements from the column table to the filled `properties` dictionary are interpreted on sample records laid out column by column."""
+    from .. import interp
+    pdb = ck.index.mod(PDB)
+    fn = ck.need(pdb.functions.get('PDBParser._atom'), 'PDBParser._atom vanished')
+    ck.analysed(pdb, fn)
+    loops = [i for i, st in enumerate(fn.body) if isinstance(st, ast.For) and 'properties[' in u(st)]
+    ck.need(bool(loops), 'PDBParser._atom: the loop that fills `properties` was not found')
+    # everything from the top of the method to that loop (the column table may be a local, a class attribute or a module constant)
+    stmts = [st for st in fn.body[:loops[0] + 1] if not (isinstance(st, ast.Expr) and isinstance(st.value, ast.Constant))]
+    consts = {}
+    for name_, value_ in list(pdb.constants.items()):
+        if any(isinstance(n_, ast.Name) and n_.id == name_ for st in stmts for n_ in ast.walk(st)):
+            try:
+                consts[name_] = interp.ev(value_, {})
+            except interp.Unsupported:
+                pass
+    cls_ = pdb.cls('PDBParser')
+    for st in cls_.body:
+        if isinstance(st, ast.Assign) and isinstance(st.targets[0], ast.Name):
+            try:
+                consts['self.' + st.targets[0].id] = interp.ev(st.value, {})
+            except interp.Unsupported:
+                pass
+
+    def record(atomid, name, resname, chain, resid, x, y, z):
+        return 'ATOM  ' + atomid + ' ' + name + ' ' + resname + chain + resid + ' ' + '   ' + x + y + z + '  1.00' + '  0.00' + ' ' * 10 + ' C' + '  '
+    cases = [(record('   12', ' CA ', 'LYS ', 'A', '  -4', '   1.000', '   2.000', '  -3.000'), {'atomid': 12, 'atomname': 'CA', 'resname': 'LYS', 'chain': 'A', 'resid': -4, 'x': 1.0, 'y': 2.0, 'z': -3.0}),
+             (record('    0', ' N  ', 'GLY ', ' ', '   0', '   0.000', '  -0.500', '  10.000'), {'atomid': 0, 'atomname': 'N', 'chain': '', 'resid': 0, 'x': 0.0, 'y': -0.5, 'z': 10.0}),
+             (record('99999', 'HD21', 'ASN ', 'B', '9999', '9999.999', '-999.999', '   0.001'), {'atomid': 99999, 'atomname': 'HD21', 'resid': 9999, 'x': 9999.999, 'y': -999.999}),
+             (record('     ', ' O  ', 'HOH ', 'W', '    ', '   1.000', '   1.000', '   1.000'), {'atomid': 0, 'resid': 0}),
+             (record('  -12', ' CA ', 'ALA ', 'A', '-123', '   1.000', '   1.000', '   1.000'), {'atomid': -12, 'resid': -123})]
+    bad = None
+    try:
+        for line, want in cases:
+            env = dict(consts, line=line, properties={})
+            env['self._skipahead'] = False
+            interp.run_stmts(stmts, env)
+            got = env.get('properties', {})
+            wrong = {k: got.get(k) for k, v in want.items() if got.get(k) != v or type(got.get(k)) is not type(v)}
+            if wrong:
+                bad = 'the record {!r} is read with {} (written: {})'.format(line[:30], wrong, {k: want[k] for k in wrong})
+                break
+    except interp.Unsupported as err:
+        bad = 'could not be interpreted: {}'.format(err)
+    except (ValueError, TypeError, KeyError) as err:
+        bad = 'fails on a well-formed record: {!r}'.format(err)
+    ck.ob('FMT-reader-values', pdb.loc(fn), bad is None, 'PDBParser._atom reads every column as the value it spells, negative and zero numbers included ({} records interpreted){}'.format(
+        len(cases), '' if bad is None else ' -- ' + bad), key='FMT-reader-values|PDBParser._atom')
+
+
+def conect_records_all_used(ck):
+    """PDBParser.do_conect: every CONECT line that was kept contributes its bonds -- an atom with more than four partners is written on several lines that start with
+    the same serial, and all of them count.  do_conect is interpreted on sample lines with a recorder in place of _do_single_conect."""
+    from .. import interp
+    from .helpers import FakeGraph
+    pdb = ck.index.mod(PDB)
+    fn = ck.need(pdb.functions.get('PDBParser.do_conect'), 'PDBParser.do_conect vanished')
+    ck.analysed(pdb, fn)
+
+    def line(*serials):
+        return 'CONECT' + ''.join('{:>5d}'.format(x) for x in serials)
+    cases = [[line(1, 2, 3, 4, 5), line(1, 6, 7), line(2, 1)], [line(3, 4)], [], [line(10, 11, 12, 13, 14), line(10, 15), line(11, 10), line(10, 16, 17, 18, 19)]]
+    bad = None
+    try:
+        for lines in cases:
+            seen = []
+            env = {'self._conects': list(lines), 'self.molecules': [FakeGraph({0: {'atomid': 1}, 1: {'atomid': 2}})],
+                   'self._do_single_conect': lambda record, table, _seen=seen: _seen.append(list(record))}
+            interp.run_stmts(fn.body, env)
+            want = sorted((int(l[6:11]), int(l[k:k + 5])) for l in lines for k in range(11, len(l), 5))
+            got = sorted((r[0], p) for r in seen for p in r[1:])
+            if got != want:
+                bad = 'of the bonds {} written on {} CONECT line(s) only {} are handed on'.format(want, len(lines), got)
+                break
+    except interp.Unsupported as err:
+        bad = 'could not be interpreted: {}'.format(err)
+    except interp.Returned:
+        pass
+    except (ValueError, TypeError, KeyError, IndexError) as err:
+        bad = 'fails on well-formed CONECT lines: {!r}'.format(err)
+    ck.ob('FMT-reader-values', pdb.loc(fn), bad is None, 'PDBParser.do_conect hands every (atom, partner) pair of every kept CONECT line on to the bond maker ({} sets of lines interpreted){}'.format(
+        len(cases), '' if bad is None else ' -- ' + bad), key='FMT-reader-values|PDBParser.do_conect')
